@@ -818,8 +818,11 @@ class Tilt(TiltInterface):
             Updated x and y shift terms
 
         """
-        x = xs - (z * self.x)
-        y = ys - (z * self.y)
+        # (the product of two single precision scalars - a focal length and an
+        # angle read from a float32 table - is a single precision number)
+        z = np.asarray(z, dtype=float)
+        x = xs - (z * np.asarray(self.x, dtype=float))
+        y = ys - (z * np.asarray(self.y, dtype=float))
         return x, y
 
 
